@@ -32,7 +32,7 @@ EXHAUSTIVE = {"quick": False, "thorough": True}
 EXHAUSTIVE_NOTE = "E1 is enumerated completely in both tiers, E2 in the thorough tier; S and the corruptions of S are seeded samples (all corruptions of each sampled string)"
 ALPHABET = "(),:->_Xc1 "
 NAME_POOL = ["X", "Y", "Z", "lon", "k1", "_q", "x", "t", "e", "r", "n", "c", "xcenter", "leftover", "inner_x", "XX", "XXY",
-             "outerspace", "Right", "a_b_c", "l"]
+             "outerspace", "Right", "a_b_c", "l", "σ", "x_ρ", "ñ"]
 
 
 def _args(names, positions, maxpairs):
@@ -47,7 +47,7 @@ A1 = _args(["X", "Y"], sigm.POSW, 1)
 E1 = [([a], [o]) for a in A1 for o in A1] + [([a, b], [o]) for a in A1 for b in A1 for o in A1]
 A2 = _args(["X", "Y"], ["center", "left", "outer"], 2)
 N_E2 = (len(A2) + len(A2) ** 2) * len(A2)
-OP_NAMES = list(string.ascii_letters) + ["lon", "depth", "xcenter", "leftover", "inner_x", "Right", "tt", "ee", "_x", "x1"]
+OP_NAMES = list(string.ascii_letters) + ["lon", "depth", "xcenter", "leftover", "inner_x", "Right", "tt", "ee", "_x", "x1", "σ", "λ", "x_ρ", "ñ", "zσ"]
 N_S = {"quick": 400, "thorough": 6000}
 BUDGET = {"quick": len(E1) + N_S["quick"] + len(OP_NAMES), "thorough": len(E1) + N_E2 + N_S["thorough"] + len(OP_NAMES)}
 MIN_EVALS = {"quick": 100000, "thorough": 2000000}
